@@ -1,3 +1,9 @@
 #!/bin/bash
-# placeholder; replaced when the extractor exists
-exit 0
+# Build the extractor and warm the dependency caches / fact caches for all configurations (offline).
+set -e
+cd "$(dirname "$0")"
+export CARGO_NET_OFFLINE=true
+(cd vpx && cargo build --offline 2>&1 | tail -3)
+python3 vpr/extract.py default
+python3 vpr/extract.py raft || echo "WARN: raft configuration could not be extracted"
+python3 vpr/extract.py persistent || echo "WARN: persistent configuration could not be extracted"
